@@ -36,7 +36,14 @@ type EntryResult struct {
 	PathLimit   bool     `json:"path_limit_hit"`
 	Inconclusive int     `json:"inconclusive_paths"`
 	CoverMissing []string `json:"cover_missing"`
+	SampleTraces []SampleTrace `json:"sample_traces"`
+	UsesStubs    bool     `json:"uses_stubs"`
 	BuildFailed  string  `json:"build_failed,omitempty"`
+}
+
+type SampleTrace struct {
+	Decisions []int   `json:"decisions"`
+	Inputs    []Input `json:"inputs"`
 }
 
 type Result struct {
@@ -62,6 +69,7 @@ func main() {
 	verbose := flag.Bool("v", false, "verbose")
 	vrtSrc := flag.String("vrt", "", "path to vrt.go (default: <exe>/../vrt/vrt.go)")
 	replay := flag.String("replay", "", "decision list (comma separated) to run a single path with tracing")
+	concrete := flag.String("concrete", "", "trace JSON: run the entry with these concrete inputs (engine concrete mode, R2 replay)")
 	flag.Parse()
 
 	res := &Result{Pkg: *pkgPat, Tier: *tier}
@@ -167,7 +175,7 @@ func main() {
 			res.Entries = append(res.Entries, er)
 			continue
 		}
-		runEntry(prog, fn, &er, tierN, *solver, *timeout, *maxPaths, *maxTime, *verbose, *replay)
+		runEntry(prog, fn, &er, tierN, *solver, *timeout, *maxPaths, *maxTime, *verbose, *replay, *concrete)
 		res.Entries = append(res.Entries, er)
 		if len(er.Stats.Violations) > 0 {
 			exit = 1
@@ -178,7 +186,7 @@ func main() {
 	os.Exit(exit)
 }
 
-func runEntry(prog *ssa.Program, fn *ssa.Function, er *EntryResult, tier int, solverBin string, qtimeout, maxPaths, maxTime int, verbose bool, replay string) {
+func runEntry(prog *ssa.Program, fn *ssa.Function, er *EntryResult, tier int, solverBin string, qtimeout, maxPaths, maxTime int, verbose bool, replay string, concrete string) {
 	t0 := time.Now()
 	tt := NewTermTable()
 	sol, err := NewSolver(tt, solverBin, qtimeout)
@@ -191,6 +199,7 @@ func runEntry(prog *ssa.Program, fn *ssa.Function, er *EntryResult, tier int, so
 	sol.slowDir = os.Getenv("GOSYM_SLOWDIR")
 	in := NewInterp(prog, tt, sol)
 	in.tier = tier
+	baseUnwind := in.unwind
 	in.verbose = verbose
 	er.Stats = in.stats
 	allCover := map[string]bool{}
@@ -199,9 +208,30 @@ func runEntry(prog *ssa.Program, fn *ssa.Function, er *EntryResult, tier int, so
 	in.preInit(fn.Pkg)
 
 	in.work = [][]int{{}}
-	if replay != "" {
+	if concrete != "" {
+		b, err := os.ReadFile(concrete)
+		if err != nil {
+			er.BuildFailed = err.Error()
+			return
+		}
+		var tr struct {
+			Inputs    []Input `json:"inputs"`
+			Decisions []int   `json:"decisions"`
+		}
+		if err := json.Unmarshal(b, &tr); err != nil {
+			er.BuildFailed = err.Error()
+			return
+		}
+		in.concrete = tr.Inputs
+		in.concreteMode = true
+		in.work = [][]int{tr.Decisions}
+		replay = "x"
+	} else if replay != "" {
 		var pre []int
-		for _, s := range strings.Split(replay, ",") {
+		for _, s := range strings.Split(strings.TrimSuffix(replay, "x"), ",") {
+			if s == "" {
+				continue
+			}
 			var d int
 			fmt.Sscanf(s, "%d", &d)
 			pre = append(pre, d)
@@ -219,14 +249,22 @@ func runEntry(prog *ssa.Program, fn *ssa.Function, er *EntryResult, tier int, so
 		pre := in.work[len(in.work)-1]
 		in.work = in.work[:len(in.work)-1]
 		nv := len(in.stats.Violations)
+		in.unwind = baseUnwind
 		kind, msg := in.runPath(fn, pre)
 		in.stats.Paths++
 		in.stats.Steps += in.steps
 		switch kind {
 		case "ok":
 			in.stats.PathsOK++
-			if len(in.stats.Samples) < 3 {
-				in.stats.Samples = append(in.stats.Samples, in.samplePath())
+			if len(in.stats.Samples) < 3 || (in.stats.PathsOK%97 == 0 && len(in.stats.Samples) < 8) {
+				s, tr := in.samplePath()
+				in.stats.Samples = append(in.stats.Samples, s)
+				if tr != nil {
+					er.SampleTraces = append(er.SampleTraces, *tr)
+				}
+			}
+			if in.usedStubs {
+				er.UsesStubs = true
 			}
 		case "infeasible":
 			in.stats.Infeasible++
@@ -361,9 +399,13 @@ func (in *Interp) runPath(fn *ssa.Function, prefix []int) (kind, msg string) {
 	in.mergeFail = map[ssa.Instruction]int{}
 	in.expectPanic = false
 	in.schedUsed = 0
+	in.noMerge = false
+	in.schedules = 1
 	in.specDepth = 0
 	in.pathNotes = nil
 	in.lastClock = nil
+	in.concPos = 0
+	in.concChoice = 0
 	in.stubs = map[string]*FuncV{}
 	in.gwaits = map[*Goroutine]*gwait{}
 	in.journalOn = true
@@ -416,12 +458,13 @@ func (in *Interp) runPath(fn *ssa.Function, prefix []int) (kind, msg string) {
 	return "ok", ""
 }
 
-func (in *Interp) samplePath() string {
+func (in *Interp) samplePath() (string, *SampleTrace) {
 	// a satisfying assignment of the path condition: one concrete input of this path
 	res, model := in.sol.CheckModel(in.pc, in.allSyms())
 	if res != Sat {
-		return fmt.Sprintf("decisions=%v", in.taken)
+		return fmt.Sprintf("decisions=%v", in.taken), nil
 	}
+	tr := &SampleTrace{Decisions: append([]int(nil), in.taken...), Inputs: in.modelInputs(model)}
 	var sb strings.Builder
 	fmt.Fprintf(&sb, "decisions=%v inputs=[", in.taken)
 	n := 0
@@ -438,5 +481,5 @@ func (in *Interp) samplePath() string {
 		n++
 	}
 	sb.WriteString(" ]")
-	return sb.String()
+	return sb.String(), tr
 }
